@@ -718,6 +718,13 @@ class ModuleVistor(NodeVisitor):
         else:
             obj = self.system.objForFullName(full_name)
             if obj is None:
+                # The target may be defined in a module that has not been analysed yet.
+                parts = full_name.split('.')
+                for i in range(len(parts) - 1, 0, -1):
+                    if self.system.getProcessedModule('.'.join(parts[:i])) is not None:
+                        break
+                obj = self.system.objForFullName(full_name)
+            if obj is None:
                 warn("Unable to figure out target for __doc__ assignment: "
                      "computed full name not found: " + full_name)
 
